@@ -40,6 +40,12 @@ CLAIMS["C01"] = dict(
     note=ROUTER_NOTE + " PARTIAL: exactness/order/completeness clauses are monitor-checked, not proved; the link between a request's log and the subscription filter that created it (RInv 2) is not yet an invariant theorem.",
     ref="DESIGN.md §7 C01")
 
+CLAIMS["C03"] = dict(
+    text="Fully proved on Router.Model for ALL op sequences (any events with any ids — live, never registered, removed, recycled —, any well-typed packets incl. arbitrary byte strings as topics, persistent and clean sessions, shared subscriptions, takeover; any admissible oracle), for both the release and the dev (debug assertions) profile (Props/C03.v, 15 statements): a structural invariant RInv (five slabs aligned with equal free lists, client-id map, live ids in waiters, valid log indices, window length <= MAX_INFLIGHT, well-formed logs, non-empty groups, ...; dev: per-connection requests carry pairwise different filters) holds in every reachable state, and from it no Panic branch of the model is reachable except the commit log's 64-bit counter overflow tag (needs ~2^64 appended entries/bytes) — c03_no_panic; and c03_still_serving: in any reachable state a fresh valid client id below capacity is registered, gets its ConnAck committed and is scheduled. The implementation is tied to the model by the router correspondence (hostile-heavy mix: events with arbitrary ids, unsolicited acks, stale links, malformed topics; every answer incl. PANIC compared) and the monitor reports any panic of the real router with the shrunk op sequence.",
+    note=ROUTER_NOTE + " Configuration hypothesis cfg_ok: max_segment_size >= 1024, max_segment_count >= 1 (CommitLog::new panics otherwise at the first SUBSCRIBE: operator misconfiguration, not client behaviour). op_wf: a SUBSCRIBE's requested QoS is 0..2 (a Rust enum; the model uses N). The only panic left (P_ADD) is u64 offset overflow. Seventeen panics/defects found on the way were fixed in /repo (known_findings.json).",
+    ref="DESIGN.md §7 C03")
+CLAIMS["C19"]["text"] = ("Routing-core clauses fully proved on Router.Model (Props/C19.v): a Connect whose client id contains any of + $ # / leaves the router state unchanged (c19_clientid_rejected); in every state reachable by ANY op sequence two live connections never carry the same client id (a new one replaces the old: c19_unique/_reachable) and the number of live connections never exceeds max_connections (c19_limit/_reachable) — both corollaries of the router invariant RInv of C03. Admission decision of the per-connection task (first packet must be CONNECT, keep-alive != 0, client id non-empty unless clean session, credentials accepted by callback or static table) is modelled as a pure function (Stack.Model.admission) with c19_admit / c19_admit_complete proved, and the real task remote() is driven over in-memory streams (stack driver) and compared with it when comp_stack is present (see evidence.coverage). The monitor checks on the real router that a rejected link never receives a ConnAck or traffic, slab ids, and the session-present flag.")
+
 ROUTER_PROPS = {
     "C01": "exact ordered delivery to matching subscriptions",
     "C03": "no client behaviour can crash the routing core",
